@@ -35,6 +35,8 @@ impl<'a> Tracer<'a> {
         } else {
             fault::reset_counter();
         }
+        let notes = annotate(w, op);
+        if !notes.is_empty() { writeln!(self.out, "A {}", notes).unwrap(); }
         writeln!(self.out, "OP {} {}", self.n, op.text()).unwrap();
         let ok = w.apply(op);
         let dispatched = if fault_at >= 0 { fault::disarm() } else { fault::counter() };
@@ -50,6 +52,47 @@ impl<'a> Tracer<'a> {
     }
     pub fn end(&mut self) {
         writeln!(self.out, "END").unwrap();
+    }
+}
+
+/// facts about the pre-state that classify which branch of the code the operation will take
+/// (used by the monitors to tell known call sites apart; computed from queries only)
+pub fn annotate(w: &World, op: &Op) -> String {
+    match op {
+        Op::Eng { m: EMsg::Liq { vamm, trader, .. }, .. } => {
+            let p = match w.position(*vamm, *trader) { Some(p) => p, None => return String::new() };
+            let cfg = eng_cfg(w);
+            if cfg.partial_liquidation_ratio.is_zero() { return "pl_branch=none".to_string(); }
+            let part = p.size.value.u128().checked_mul(cfg.partial_liquidation_ratio.u128()).map(|x| x / cfg.decimals.u128()).unwrap_or(0);
+            let cur: Option<Uint128> = w.q(&w.addr(*vamm), &mv::QueryMsg::OutputAmount { direction: p.direction.clone(), amount: Uint128::new(part) });
+            match cur {
+                Some(c) if c > p.notional => "pl_branch=input".to_string(),
+                Some(_) => "pl_branch=output".to_string(),
+                None => "pl_branch=err".to_string(),
+            }
+        }
+        Op::Eng { sender, m: EMsg::Close { vamm, .. }, .. } => {
+            let p = match w.position(*vamm, *sender) { Some(p) => p, None => return String::new() };
+            if (*vamm as usize) < ID_VAMM0 as usize || ((*vamm - ID_VAMM0) as usize) >= w.vamms.len() { return String::new(); }
+            let c = vamm_cfg(w, *vamm);
+            if c.fluctuation_limit_ratio.is_zero() || p.size.value.is_zero() { return String::new(); }
+            let st = vamm_state(w, *vamm);
+            let quote: Option<Uint128> = w.q(&w.addr(*vamm), &mv::QueryMsg::OutputAmount { direction: p.direction.clone(), amount: p.size.value });
+            let quote = match quote { Some(q) => q.u128(), None => return "whole_close_in_band=err".to_string() };
+            let (q, b, d) = (st.quote_asset_reserve.u128(), st.base_asset_reserve.u128(), c.decimals.u128());
+            let (q2, b2) = if p.direction == mv::Direction::AddToAmm {
+                (q.checked_sub(quote), b.checked_add(p.size.value.u128()))
+            } else {
+                (q.checked_add(quote), b.checked_sub(p.size.value.u128()))
+            };
+            let price = match (q2, b2) { (Some(q2), Some(b2)) if b2 > 0 => q2.checked_mul(d).map(|x| x / b2), _ => None };
+            let band = w.band(*vamm);
+            match (price, band) {
+                (Some(pz), Some((lo, hi))) => format!("whole_close_in_band={}", if lo <= pz && pz <= hi { 1 } else { 0 }),
+                _ => "whole_close_in_band=err".to_string(),
+            }
+        }
+        _ => String::new(),
     }
 }
 
@@ -212,6 +255,18 @@ pub struct Profile {
 }
 
 impl Profile {
+    pub fn named(name: &str, len: usize) -> Profile {
+        let mut p = Profile::general(len);
+        match name {
+            "liq" => { p.w_steer_liq = 25; p.w_liq = 8; p.w_open = 30; p.w_oracle = 8; }
+            "funding" => { p.w_funding = 18; p.w_block = 18; p.w_oracle = 8; p.w_open = 30; }
+            "caps" => { p.w_caps = 14; p.w_open = 45; }
+            "pause" => { p.w_pause = 8; p.w_malformed = 8; }
+            "fluct" => { p.w_close = 20; p.w_block = 8; }
+            _ => {}
+        }
+        p
+    }
     pub fn general(len: usize) -> Profile {
         Profile { len, w_open: 36, w_close: 10, w_deposit: 4, w_withdraw: 5, w_liq: 4, w_funding: 5, w_block: 14,
                   w_oracle: 4, w_cfg: 2, w_malformed: 5, w_steer_liq: 7, w_pause: 1, w_caps: 2 }
@@ -432,16 +487,26 @@ pub fn history(tr: &mut Tracer, w: &mut World, rng: &mut Rng, p: &Profile) {
 }
 
 /// family `engine`: general mixed histories
-pub fn run(out: &mut dyn Write, seed: u64, thorough: bool, n_hist: usize, native: Option<bool>, real_feed: bool) {
+pub fn run(out: &mut dyn Write, seed: u64, thorough: bool, n_hist: usize, native: Option<bool>, real_feed: bool, profile: &str) {
     let mut rng = Rng::new(seed);
     let mut tr = Tracer { out, n: 0, observe_every_op: true };
     for h in 0..n_hist {
-        let d = random_deploy(&mut rng, native, real_feed);
+        let mut d = random_deploy(&mut rng, native, real_feed);
+        if profile == "fluct" {
+            let u = unit(d.decimals);
+            for v in d.vamms.iter_mut() { v.fluct = *rng.pick(&[u / 100, u / 50, u / 20, u / 10, u / 5]); }
+        }
         let mut w = World::new(&d, &accounts());
         tr.begin(&w, &format!("engine seed={} h={}", seed, h));
         setup(&mut tr, &mut w, &mut rng);
         let len = if thorough { 40 + rng.below(60) as usize } else { 25 + rng.below(20) as usize };
-        history(&mut tr, &mut w, &mut rng, &Profile::general(len));
+        if profile == "fluct" {
+            let u = unit(w.d.decimals);
+            let plr = *rng.pick(&[u / 4, u / 2, u / 10, u * 9 / 10, u / 3]);
+            tr.step(&mut w, &Op::Eng { sender: ID_OWNER, funds: 0, m: EMsg::UpdCfg { owner: None, ifund: None, fpool: None, init: None, maint: None, plr: Some(plr), liqfee: None } });
+            tr.step(&mut w, &Op::Block { dt: 10, dh: 1 });
+        }
+        history(&mut tr, &mut w, &mut rng, &Profile::named(profile, len));
         tr.end();
     }
 }
